@@ -401,6 +401,73 @@ func scenarios(thorough bool) []scenario {
 		})
 	}
 
+	// ---- the same mocker given one instruction after another (closures of one literal differ only in what they capture) ----
+	mkF := func(tr *transcript, k int) func(int, string) int {
+		return func(a int, s string) int { tr.add("  cb#%d F(%d,%q)", k, a, s); return k*1000 + a }
+	}
+	for mi, mode := range []string{"same-mocker", "fresh-lookup", "apply-return-apply"} {
+		mode := mode
+		add(fmt.Sprintf("Reapply/F/%d-%s", mi, mode), func(tr *transcript) {
+			b := mocker.Create()
+			defer b.Reset()
+			m := b.Func(t.F)
+			for k := 1; k <= 3; k++ {
+				switch mode {
+				case "same-mocker":
+					m.Apply(mkF(tr, k))
+				case "fresh-lookup":
+					b.Func(t.F).Apply(mkF(tr, k))
+				case "apply-return-apply":
+					if k == 2 {
+						m.Return(2222)
+					} else {
+						m.Apply(mkF(tr, k))
+					}
+				}
+				tr.do(fmt.Sprintf("round %d F(1,a)", k), func() string { return fmt.Sprint(t.F(1, "a")) })
+				tr.do(fmt.Sprintf("round %d F(0,)", k), func() string { return fmt.Sprint(t.F(0, "")) })
+			}
+		})
+	}
+	add("Reapply/M", func(tr *transcript) {
+		b := mocker.Create()
+		defer b.Reset()
+		recv := &t.T{K: 5}
+		mk := func(k int) func(*t.T, *t.Node, ...string) int {
+			return func(r *t.T, p *t.Node, xs ...string) int { tr.add("  cb#%d M(%v)", k, xs); return 70 + k }
+		}
+		m := b.Struct(recv).Method("M")
+		for k := 1; k <= 3; k++ {
+			m.Apply(mk(k))
+			tr.do(fmt.Sprintf("round %d M(nil,x)", k), func() string { return fmt.Sprint(recv.M(nil, "x")) })
+		}
+	})
+	add("Reapply/I", func(tr *transcript) {
+		b := mocker.Create()
+		defer func() { b.Reset(); t.X = nil }()
+		t.X = nil
+		mk := func(k int) func(*mocker.IContext, interface{}, *t.Node) string {
+			return func(ctx *mocker.IContext, x interface{}, p *t.Node) string { tr.add("  cb#%d Do(%s)", k, render(x)); return fmt.Sprint("applied#", k) }
+		}
+		m := b.Interface(&t.X).Method("Do")
+		for k := 1; k <= 3; k++ {
+			m.Apply(mk(k))
+			tr.do(fmt.Sprintf("round %d Do(3,nil)", k), func() string { return t.CallDo(3, nodeNil) })
+		}
+	})
+	add("Reapply/Unexported", func(tr *transcript) {
+		b := mocker.Create()
+		defer b.Reset()
+		mk := func(k int) func(*t.Node, interface{}) int {
+			return func(p *t.Node, x interface{}) int { tr.add("  cb#%d hidden", k); return 80 + k }
+		}
+		m := b.Pkg(t.Pkg).ExportFunc("hidden")
+		for k := 1; k <= 3; k++ {
+			m.Apply(mk(k))
+			tr.do(fmt.Sprintf("round %d hidden", k), func() string { return fmt.Sprint(t.CallHidden(nodeNil, 1)) })
+		}
+	})
+
 	// ---- variables (Set/Apply/Reset are logged too) ----
 	add("Var/set-apply-reset", func(tr *transcript) {
 		b := mocker.Create()
